@@ -214,7 +214,7 @@ impl<'a> BinEncoder<'a> {
             decreases vp_it0.decrease().unwrap()
 //%before "let rollback = Rollback"
             let ghost vp_iter_start = *self;
-//%before "ProtoError::NotAllRecordsWritten { count }"
+//%after "rollback.rollback(self);"
                         // C03: the encoder is exactly as before the record that did not fit
                         assert(self.offset == vp_iter_start.offset);
                         assert(self.name_pointers@ =~= vp_iter_start.name_pointers@);
